@@ -13,6 +13,8 @@ TraceInit == l = 1
 TraceNext ==
     /\ l <= Len(Trace)
     /\ LET e == Trace[l] IN
+       IF e.envfail THEN TRUE      \* the store ended the service stream (etcd failure): outside the property
+       ELSE
        /\ \A i \in 1..Len(e.subs) : LET s == e.subs[i] IN
              Report(s.kind = "stalled" \/ SetEq(s.last, Range(e.registered)), "C27", l, "subscriber-did-not-converge/" \o s.kind \o "/" \o Stalled(e))
        /\ \A i \in 1..Len(e.unsubs) : LET u == e.unsubs[i] IN
